@@ -134,7 +134,11 @@ func randHost(r *mon.Rng) string {
 		return fmt.Sprintf("127.0.%d.%d", r.Range(0, 9), r.Range(1, 254))
 	case 2:
 		// a host name, short or as long as cloud-provider names get (the reserved .invalid TLD never resolves)
-		const al = "abcdefghijklmnopqrstuvwxyz0123456789-"
+		al := "abcdefghijklmnopqrstuvwxyz0123456789-"
+		if r.Bool() {
+			// carbon hashes the server string exactly as it is configured: capitalisation is part of it
+			al = "abcdefghijklmnopqrstuvwxyzABCDEFGHIJKLMNOPQRSTUVWXYZ0123456789-"
+		}
 		want := r.PickInt([]int{12, 30, 54, 64, 70, 100, 180})
 		h := ""
 		for len(h) < want {
